@@ -162,55 +162,8 @@ extern "C" int clock_gettime(clockid_t id, struct timespec* ts)
   return real_clock_gettime()(id, ts);
 }
 
-// per-thread measurements of the requesting thread (reset at the start of every logical request)
-static thread_local bool t_isRequester = false;
-static thread_local long long t_maxWaitMs = 0;     // longest single timed wait the thread asked for (client-visible ms)
-static thread_local long long t_waitTimeouts = 0;  // timed waits that ended by time-out
-static thread_local long long t_lastDeadline = -1;
-static thread_local long long t_episodeMs = 0;       // length of the wait the thread is in (0 = a pure probe, e.g. residualDataPending)
-static thread_local long long t_episodeStartReal = 0;
 static std::atomic<long long> n_stalls{0};
-
-// A timed wait against the virtual clock: wait in short real slices; report a time-out only when the VIRTUAL deadline
-// has passed, otherwise return as a spurious wake-up (which every caller must tolerate).
-extern "C" int pthread_cond_clockwait(pthread_cond_t* c, pthread_mutex_t* m, clockid_t id, const struct timespec* abs)
-{
-  static clockwait_t real = reinterpret_cast<clockwait_t>(dlsym(RTLD_NEXT, "pthread_cond_clockwait"));
-  if (id != CLOCK_MONOTONIC) return real(c, m, id, abs);
-  n_clockwait++;
-  long long vdl = abs->tv_sec * 1000000000LL + abs->tv_nsec;
-  long long vn = virtNowNs();
-  if (t_isRequester)
-  {
-    if (vdl != t_lastDeadline)
-    {
-      t_lastDeadline = vdl;
-      t_episodeStartReal = realMonoNs();
-      long long ms = vn < vdl ? (vdl - vn + 999999LL) / 1000000LL : 0;
-      t_episodeMs = ms;
-      if (ms > t_maxWaitMs) t_maxWaitMs = ms;
-    }
-    else if (realMonoNs() - t_episodeStartReal > 1000000000LL && !g_wantTimeout.load())
-    {
-      // Nothing has happened for 1 s of REAL time (several nominal time-outs): whatever the script said, the peer is
-      // silent for this caller — let the virtual clock run so that the wait ends by its own time-out.
-      n_stalls++;
-      g_wantTimeout = true;
-    }
-  }
-  long long slice = 0;
-  if (vn < vdl)
-  {
-    slice = (vdl - vn) * g_scale.load(std::memory_order_relaxed);
-    if (slice > 1000000LL) slice = 1000000LL; // 1 ms real
-  }
-  struct timespec rts;
-  toTs(realMonoNs() + slice, &rts);
-  int rc = real(c, m, CLOCK_MONOTONIC, &rts);
-  if (rc == ETIMEDOUT && virtNowNs() < vdl) return 0;
-  if (rc == ETIMEDOUT && t_isRequester && t_episodeMs > 0) t_waitTimeouts++; // a zero-length wait is a probe, not a time-out
-  return rc;
-}
+static std::atomic<long long> g_waitEpisodeStartReal{0}; // real time at which the requesting thread entered its current timed wait
 
 // ---- per-request context of the requesting thread ------------------------------------------------------------------
 struct Fault
@@ -237,19 +190,116 @@ struct ReqCtx
   std::string hostPort;
   HttpClient* client = nullptr;
   bool par = false;          // one of several concurrent callers: faults are bound by the server from X-Req-Id, nothing global is touched
+  // timed waits of the requesting thread (client-visible milliseconds)
+  long long maxWaitMs = 0;   // longest single timed wait asked for
+  long long waitTimeouts = 0;// timed waits (> 0 ms) that ended by time-out
+  long long lastDeadline = -1;
+  long long episodeMs = 0;   // length of the wait in progress (0 = a pure probe, e.g. residualDataPending)
+  long long episodeStartReal = 0;
+  long long stalls = 0;
+  char curCls = 'K';         // fault class of the attempt in progress
+  std::vector<long long> attemptTw;              // per attempt: length of the wait that ended by time-out (0 = none)
+  std::vector<std::set<long long>> attemptWaits; // per attempt: distinct lengths of the timed waits asked for
+  void noteWait(long long ms)
+  {
+    std::size_t i = static_cast<std::size_t>(attempt < 0 ? 0 : attempt);
+    if (attemptWaits.size() <= i) attemptWaits.resize(i + 1);
+    attemptWaits[i].insert(ms);
+    if (ms > maxWaitMs) maxWaitMs = ms;
+  }
+  // The wait in progress is over (the thread enters another one, or the attempt ends). It ended by its time-out iff the clock had
+  // reached its deadline: libstdc++ decides that by reading the clock itself after the wait returns, so the interposed wait need
+  // not have returned ETIMEDOUT. (The clock stands still for 5 ms after every notification, so a wait that ended by a notification
+  // is not mistaken for one that timed out.)
+  void closeEpisode(long long vnow)
+  {
+    if (lastDeadline >= 0 && episodeMs > 0 && vnow >= lastDeadline) noteTimeout(episodeMs);
+    lastDeadline = -1;
+    episodeMs = 0;
+  }
+  void noteTimeout(long long ms)
+  {
+    std::size_t i = static_cast<std::size_t>(attempt < 0 ? 0 : attempt);
+    if (attemptTw.size() <= i) attemptTw.resize(i + 1, 0);
+    attemptTw[i] = ms;
+    waitTimeouts++;
+  }
 };
 static thread_local ReqCtx* t_ctx = nullptr;
+// A request issued through an ...Async entry point runs on a thread the library creates (std::async): during such an operation
+// every thread that is neither one of the harness' own threads nor the engine's I/O thread is the requesting thread.
+static thread_local bool t_harnessThread = false;
+static std::atomic<bool> g_asyncOp{false};
+static ReqCtx* g_seqCtx = nullptr;
+static std::thread::id g_ioThreadId;
+static ReqCtx* reqCtx()
+{
+  if (t_ctx) return t_ctx;
+  if (g_asyncOp.load() && !t_harnessThread && g_seqCtx && std::this_thread::get_id() != g_ioThreadId) return g_seqCtx;
+  return nullptr;
+}
 static void beginAttempt(ReqCtx& cx, int idx);
+
+
+// A timed wait against the virtual clock: wait in short real slices; report a time-out only when the VIRTUAL deadline
+// has passed, otherwise return as a spurious wake-up (which every caller must tolerate).
+extern "C" int pthread_cond_clockwait(pthread_cond_t* c, pthread_mutex_t* m, clockid_t id, const struct timespec* abs)
+{
+  static clockwait_t real = reinterpret_cast<clockwait_t>(dlsym(RTLD_NEXT, "pthread_cond_clockwait"));
+  if (id != CLOCK_MONOTONIC) return real(c, m, id, abs);
+  n_clockwait++;
+  long long vdl = abs->tv_sec * 1000000000LL + abs->tv_nsec;
+  long long vn = virtNowNs();
+  ReqCtx* rc_ = reqCtx();
+  if (rc_)
+  {
+    if (vdl != rc_->lastDeadline)
+    {
+      rc_->closeEpisode(vn);
+      rc_->lastDeadline = vdl;
+      rc_->episodeStartReal = realMonoNs();
+      g_waitEpisodeStartReal = rc_->episodeStartReal;
+      long long ms = vn < vdl ? (vdl - vn + 999999LL) / 1000000LL : 0;
+      rc_->episodeMs = ms;
+      rc_->noteWait(ms);
+      // class L ("another caller holds the lease"): this wait can only end by its time-out; the clock starts to run 5 ms from now
+      if (rc_->curCls == 'L' && ms > 0 && !rc_->par) { g_waitEpisodeStartReal = realMonoNs(); g_wantTimeout = true; }
+    }
+    else if (realMonoNs() - rc_->episodeStartReal > 1000000000LL && !g_wantTimeout.load())
+    {
+      // Nothing has happened for 1 s of REAL time (several nominal time-outs): whatever the script said, the peer is
+      // silent for this caller — let the virtual clock run so that the wait ends by its own time-out.
+      n_stalls++;
+      rc_->stalls++;
+      { g_waitEpisodeStartReal = realMonoNs(); g_wantTimeout = true; }
+    }
+  }
+  long long slice = 0;
+  if (vn < vdl)
+  {
+    slice = (vdl - vn) * g_scale.load(std::memory_order_relaxed);
+    if (slice > 1000000LL) slice = 1000000LL; // 1 ms real
+  }
+  struct timespec rts;
+  toTs(realMonoNs() + slice, &rts);
+  int rc = real(c, m, CLOCK_MONOTONIC, &rts);
+  // a real notification (something happened: data, a close, a released lease): the caller may compute its next deadline now —
+  // the clock must stand still while it does (see warperLoop)
+  if (rc == 0 && rc_) g_waitEpisodeStartReal = realMonoNs();
+  if (rc == ETIMEDOUT && virtNowNs() < vdl) return 0;
+
+  return rc;
+}
 
 extern "C" int nanosleep(const struct timespec* req, struct timespec* rem)
 {
   static nanosleep_t real = reinterpret_cast<nanosleep_t>(dlsym(RTLD_NEXT, "nanosleep"));
-  if (t_ctx)
+  if (ReqCtx* cx = reqCtx())
   {
     // back-off of performRequest: record, skip, and make the next script entry current
     n_nanosleep_skipped++;
-    t_ctx->sleepsMs.push_back(req->tv_sec * 1000LL + req->tv_nsec / 1000000LL);
-    beginAttempt(*t_ctx, t_ctx->attempt + 1);
+    cx->sleepsMs.push_back(req->tv_sec * 1000LL + req->tv_nsec / 1000000LL);
+    beginAttempt(*cx, cx->attempt + 1);
     if (rem) { rem->tv_sec = 0; rem->tv_nsec = 0; }
     return 0;
   }
@@ -258,11 +308,12 @@ extern "C" int nanosleep(const struct timespec* req, struct timespec* rem)
 extern "C" int clock_nanosleep(clockid_t id, int flags, const struct timespec* req, struct timespec* rem)
 {
   static clock_nanosleep_t real = reinterpret_cast<clock_nanosleep_t>(dlsym(RTLD_NEXT, "clock_nanosleep"));
-  if (t_ctx && flags == 0)
+  ReqCtx* cx = flags == 0 ? reqCtx() : nullptr;
+  if (cx)
   {
     n_nanosleep_skipped++;
-    t_ctx->sleepsMs.push_back(req->tv_sec * 1000LL + req->tv_nsec / 1000000LL);
-    beginAttempt(*t_ctx, t_ctx->attempt + 1);
+    cx->sleepsMs.push_back(req->tv_sec * 1000LL + req->tv_nsec / 1000000LL);
+    beginAttempt(*cx, cx->attempt + 1);
     if (rem) { rem->tv_sec = 0; rem->tv_nsec = 0; }
     return 0;
   }
@@ -306,7 +357,7 @@ extern "C" int connect(int fd, const struct sockaddr* addr, socklen_t len)
         n_connect_blackholed++;
         sockaddr_in alt = *in;
         alt.sin_port = htons(static_cast<uint16_t>(g_blackholePort.load()));
-        g_wantTimeout = true;
+        { g_waitEpisodeStartReal = realMonoNs(); g_wantTimeout = true; }
         return real(fd, reinterpret_cast<const sockaddr*>(&alt), sizeof(alt));
       }
       int rc = real(fd, addr, len);
@@ -396,6 +447,8 @@ struct Server
   std::atomic<bool> parMode{false};
   std::map<long long, std::vector<Fault>> parScripts; // guarded by mx
   std::map<long long, int> parAttempt;                // guarded by mx
+  std::atomic<long long> closeIdleGen{0};             // bumped by `srvclose`: idle keep-alive handlers close their connection
+  std::atomic<bool> closeIdleRst{false};
   int hostEx[2] = {0, 0};                             // exchanges in progress per Host header (guarded by mx)
   int hostExMax[2] = {0, 0};
 
@@ -488,12 +541,33 @@ struct Server
   {
     struct Dec { std::atomic<int>& c; ~Dec() { c--; } } dec{liveHandlers};
     struct Stop { ConnStat& c; ~Stop() { c.stopped = true; } } stopOnExit{*cs};
+    t_harnessThread = true;
     char buf[4096];
+    const long long idleGen = closeIdleGen.load();
     for (;;)
     {
-      if (!waitReadable(fd)) { ::close(fd); return; }
+      // idle: wait for the next request, for the client's close, or for `srvclose`
+      for (;;)
+      {
+        if (stop.load()) { ::close(fd); return; }
+        if (closeIdleGen.load() != idleGen)
+        {
+          if (closeIdleRst.load()) rst(fd); else ::close(fd);
+          return;
+        }
+        struct pollfd pi{fd, POLLIN, 0};
+        if (::poll(&pi, 1, 5) > 0) break;
+      }
       ssize_t pk = ::recv(fd, buf, 1, MSG_PEEK);
       if (pk <= 0) { ::close(fd); return; } // the client closed (or reset) an idle / unused connection
+      if (static_cast<unsigned char>(buf[0]) == 0x16)
+      {
+        // a TLS ClientHello (an https:// request): this plain server never answers it, the handshake can only time out
+        cs->stopped = true;
+        { g_waitEpisodeStartReal = realMonoNs(); g_wantTimeout = true; }
+        waitPeerClose(fd);
+        return;
+      }
       Fault f;
       long long reqId;
       {
@@ -581,7 +655,7 @@ struct Server
         if (f.reqAct == 'r') { note(ord, reqId, 0, 0, "rst-req"); rst(fd); return; }
         if (f.reqAct == 'f') { note(ord, reqId, 0, 0, "fin-req"); finAndDrain(fd); return; }
         note(ord, reqId, 0, 0, "silence-req");
-        g_wantTimeout = true;
+        { g_waitEpisodeStartReal = realMonoNs(); g_wantTimeout = true; }
         waitPeerClose(fd);
         return;
       }
@@ -618,7 +692,7 @@ struct Server
       if (f.respAct == 's')
       {
         note(ord, reqId, 0, 0, "silence-resp");
-        g_wantTimeout = true;
+        { g_waitEpisodeStartReal = realMonoNs(); g_wantTimeout = true; }
         waitPeerClose(fd);
         return;
       }
@@ -629,6 +703,7 @@ struct Server
 
   void acceptLoop()
   {
+    t_harnessThread = true;
     while (!stop.load())
     {
       struct pollfd p{lfd, POLLIN, 0};
@@ -850,9 +925,12 @@ static void setScale(long long sc)
 
 static void warperLoop()
 {
+  t_harnessThread = true;
   for (;;)
   {
-    if (g_wantTimeout.load() && !g_realtime.load())
+    // The clock is advanced only once the requesting thread has been inside ONE timed wait for 5 ms of real time: what the server
+    // wrote before it fell silent must reach the client first (every delivery ends the wait and starts a new one).
+    if (g_wantTimeout.load() && !g_realtime.load() && realMonoNs() - g_waitEpisodeStartReal.load() > 5000000LL)
     {
       g_voff += 20LL * 1000000LL; // +20 ms virtual
       g_warps++;
@@ -879,17 +957,23 @@ struct ClientBox
   SpyEngine* spy = nullptr;
   std::size_t origSyncBuf = 0;
 };
-static std::map<std::tuple<bool, std::size_t, long long>, ClientBox> g_boxes;
+static std::map<std::tuple<bool, std::size_t, long long, long long, long long>, ClientBox> g_boxes;
 
-static void makeClient(bool reuse, std::size_t cap, long long leaseMs)
+static long long g_connectTimeoutMs = 170, g_leaseTimeoutMs = 250;
+
+static void makeClient(bool reuse, std::size_t cap, long long leaseMs, long long requestMs, long long connectMs)
 {
-  auto key = std::make_tuple(reuse, cap, leaseMs);
+  g_requestTimeoutMs = requestMs;
+  g_connectTimeoutMs = connectMs;
+  g_leaseTimeoutMs = leaseMs;
+  auto key = std::make_tuple(reuse, cap, leaseMs, requestMs, connectMs);
   auto it = g_boxes.find(key);
   if (it == g_boxes.end())
   {
     HttpClient::Config cfg; // every default comes from the real constructor; only what the scenario needs is changed
     cfg.reuseConnections = reuse;
     cfg.requestTimeout = std::chrono::milliseconds(g_requestTimeoutMs);
+    cfg.connectTimeout = std::chrono::milliseconds(g_connectTimeoutMs);
     cfg.connectionIdleTimeout = std::chrono::seconds(IDLE_S);
     cfg.leaseAcquireTimeout = std::chrono::milliseconds(leaseMs);
     if (cap > 0)
@@ -924,6 +1008,7 @@ static void makeClient(bool reuse, std::size_t cap, long long leaseMs)
   }
   g_clientPtr = it->second.client.get();
   g_spy = it->second.spy;
+  g_ioThreadId = g_spy->real->getIoThreadId();
   g_origSyncBuf = it->second.origSyncBuf;
   // back to the initial state: nothing cached, nothing leased
   std::vector<std::pair<std::string, SessionId>> cached;
@@ -983,6 +1068,7 @@ static std::chrono::steady_clock::time_point g_agedTo{};
 static void beginAttempt(ReqCtx& cx, int idx)
 {
   long long vnow = virtNowNs();
+  if (idx != 0) cx.closeEpisode(vnow); // still attributed to the attempt that is ending
   if (idx > 0) cx.attemptVms.push_back((vnow - cx.attemptStartV) / 1000000LL);
   if (cx.par)
   {
@@ -999,6 +1085,7 @@ static void beginAttempt(ReqCtx& cx, int idx)
   {
     std::lock_guard<std::mutex> lk(cx.client->_transport->_impl->syncMutex);
     cx.client->_transport->_impl->shuttingDown = false;
+    for (auto& kv : cx.client->_transport->_impl->receiveBuffers) kv.second->flushing = false; // class O
   }
   tcfg().allowReadModeSwitch = true;
   tcfg().maxSyncReceiveBuffer = g_origSyncBuf;
@@ -1045,14 +1132,14 @@ static void beginAttempt(ReqCtx& cx, int idx)
     std::lock_guard<std::mutex> g(g_srv.mx);
     g_srv.cur = f;
   }
+  cx.curCls = f.cls;
   switch (f.cls)
   {
   case 'L':
   {
     std::lock_guard<std::mutex> lock(cx.client->_mutex);
     cx.client->_leasedHosts.insert(cx.hostPort); // "another thread" holds the lease for the whole wait
-    g_fakeHolder = true;
-    g_wantTimeout = true;
+    g_fakeHolder = true;                         // (the clock is set running when the caller enters the lease wait)
     break;
   }
   case 'R': g_refuse = true; break;
@@ -1060,6 +1147,19 @@ static void beginAttempt(ReqCtx& cx, int idx)
   case 'M': tcfg().allowReadModeSwitch = false; break;
   case 'E': g_spy->failSend = true; break;
   case 'V': tcfg().maxSyncReceiveBuffer = 256; break;
+  case 'O':
+  {
+    // "receiveSync answers with an error that has no branch of its own": mark the session's sync buffer as being flushed
+    // right after the hand-over, so that the receive is refused with TransportError::Cancelled
+    HttpClient* hc = cx.client;
+    g_spy->onSendHook = [hc] {
+      auto& impl = *hc->_transport->_impl;
+      std::lock_guard<std::mutex> lk(impl.syncMutex);
+      for (auto& kv : impl.receiveBuffers)
+        if (!kv.second->closed) kv.second->flushing = true;
+    };
+    break;
+  }
   case 'S':
   {
     // "the transport starts shutting down after the request was handed over": receiveSync's entry fence answers ShuttingDown
@@ -1107,7 +1207,7 @@ static bool parseFault(const std::string& tok, Fault& f)
   if (!sem.empty() && sem[0] == 'I') { f.idle = true; p = 1; }
   if (p >= sem.size()) return false;
   f.cls = sem[p];
-  if (std::string("LRBMETCDFPVKS").find(f.cls) == std::string::npos) return false;
+  if (std::string("LRBMETCDFPVKSOH").find(f.cls) == std::string::npos) return false;
   if (f.cls == 'K')
   {
     auto fs = splitc(sem.substr(p), ':');
@@ -1141,9 +1241,13 @@ struct ReqResult
 };
 
 // one logical request: method, budget, url kind (0 = 127.0.0.1, 1 = localhost, 9 = malformed URL), body length, script
-static std::string doRequest(const std::string& method, long long budget, int urlKind, std::size_t bodyLen,
+// `entry` empty: performRequest(method, …) directly; otherwise the public entry point of that name (its method is the API's)
+static std::string doRequest(const std::string& entry, const std::string& method, long long budget, int urlKind, std::size_t bodyLen,
                              std::vector<Fault> script, std::size_t& callMark)
 {
+  if (g_blackholePort.load() == 0)
+    for (auto& f : script)
+      if (f.cls == 'B') return "skip:no-blackhole"; // this kernel does not drop SYNs on a full accept queue: class B cannot be injected
   ReqCtx cx;
   cx.script = std::move(script);
   cx.client = g_clientPtr;
@@ -1162,7 +1266,7 @@ static std::string doRequest(const std::string& method, long long budget, int ur
     callMark = g_spy->calls.size();
   }
   std::string url = urlKind == 9 ? std::string("not a url")
-                                 : "http://" + std::string(urlKind == 1 ? "localhost" : "127.0.0.1") + ":" +
+                                 : std::string(urlKind == 2 ? "https://" : "http://") + std::string(urlKind == 1 ? "localhost" : "127.0.0.1") + ":" +
                                      std::to_string(g_srv.port) + "/r" + std::to_string(seq) + "?q=1";
   std::string body(bodyLen, 'b');
   std::map<std::string, std::string> headers{{"X-Req-Id", std::to_string(seq)}};
@@ -1170,20 +1274,52 @@ static std::string doRequest(const std::string& method, long long budget, int ur
   g_opDeadlineReal = r0 + 45LL * 1000000000LL;
   beginAttempt(cx, 0);
   std::string res, rbody = "-";
-  t_isRequester = true;
-  t_maxWaitMs = 0;
-  t_waitTimeouts = 0;
-  t_lastDeadline = -1;
+  g_seqCtx = &cx;
   t_ctx = &cx;
   try
   {
-    auto resp = g_clientPtr->performRequest(method, url, body, headers, static_cast<int>(budget));
+    HttpClient& hc = *g_clientPtr;
+    const int b = static_cast<int>(budget);
+    HttpClient::Response resp;
+    if (entry.empty()) resp = hc.performRequest(method, url, body, headers, b);
+    else if (entry == "get") resp = hc.get(url, headers, b);
+    else if (entry == "head") resp = hc.head(url, headers, b);
+    else if (entry == "post") resp = hc.post(url, body, headers, b);
+    else if (entry == "postJson") resp = hc.postJson(url, iora::parsers::Json(body), headers, b);
+    else if (entry == "deleteRequest") resp = hc.deleteRequest(url, headers, b);
+    else if (entry == "postFile")
+    {
+      std::string path = "/tmp/c17_harness_upload_" + std::to_string(::getpid());
+      { std::ofstream f(path, std::ios::binary); f << body; }
+      try { resp = hc.postFile(url, "f", path, headers, b); }
+      catch (...) { ::unlink(path.c_str()); throw; }
+      ::unlink(path.c_str());
+    }
+    else if (entry == "postStream")
+    {
+      std::string lines;
+      hc.postStream(url, iora::parsers::Json(body), headers, [&](const std::string& l) { lines += l + "\n"; }, b);
+      resp.statusCode = 200; // postStream returns nothing: it throws unless the response was 2xx
+      resp.body = "-";
+    }
+    else if (entry == "getAsync" || entry == "postJsonAsync")
+    {
+      // the request runs on a thread std::async creates; this thread only waits for it
+      t_ctx = nullptr;
+      g_asyncOp = true;
+      struct Off { ~Off() { g_asyncOp = false; } } off;
+      auto fut = entry == "getAsync" ? hc.getAsync(url, headers, b) : hc.postJsonAsync(url, iora::parsers::Json(body), headers, b);
+      while (fut.wait_for(std::chrono::milliseconds(0)) != std::future_status::ready) realSleepUs(100);
+      resp = fut.get();
+    }
+    else throw std::logic_error("harness: unknown entry point");
     res = "ok:" + std::to_string(resp.statusCode);
-    rbody = vh::toHex(resp.body);
+    rbody = entry == "postStream" ? std::string("-") : vh::toHex(resp.body);
   }
   catch (const HttpFramingError&) { res = "err:framing"; }
   catch (const HttpRequestNotSentError&) { res = "err:notsent"; }
   catch (const std::invalid_argument&) { res = "err:invalid"; }
+  catch (const std::logic_error&) { res = "err:harness"; }
   catch (const std::runtime_error& e)
   {
     res = std::string(typeid(e) == typeid(std::runtime_error) ? "err:runtime" : "err:other");
@@ -1191,7 +1327,7 @@ static std::string doRequest(const std::string& method, long long budget, int ur
   catch (const std::exception&) { res = "err:other"; }
   catch (...) { res = "err:nonstd"; }
   t_ctx = nullptr;
-  t_isRequester = false;
+  g_seqCtx = nullptr;
   int attempts = cx.attempt + 1;
   cx.attemptVms.push_back((virtNowNs() - cx.attemptStartV) / 1000000LL);
   beginAttempt(cx, -1);
@@ -1199,7 +1335,12 @@ static std::string doRequest(const std::string& method, long long budget, int ur
   long long v1 = virtNowNs(), r1 = realMonoNs();
   // ---- compared part
   std::ostringstream o;
-  o << "res=" << res << " att=" << attempts;
+  o << "res=" << res << " att=" << attempts << " tw=";
+  for (int i = 0; i < attempts; ++i)
+  {
+    long long v = static_cast<std::size_t>(i) < cx.attemptTw.size() ? cx.attemptTw[static_cast<std::size_t>(i)] : 0;
+    o << (i ? "," : "") << (v > 0 ? std::to_string(v) : std::string("-"));
+  }
   // ---- monitor-only part
   std::ostringstream mo;
   {
@@ -1231,7 +1372,17 @@ static std::string doRequest(const std::string& method, long long budget, int ur
     for (auto v : cx.attemptVms) a += (a.empty() ? "" : ",") + std::to_string(v);
     mo << " avms=" << (a.empty() ? "-" : a);
   }
-  mo << " maxwait=" << t_maxWaitMs << " tow=" << t_waitTimeouts << " vms=" << (v1 - v0) / 1000000LL << " rms=" << (r1 - r0) / 1000000LL << " exhausted=" << (cx.exhausted ? 1 : 0)
+  {
+    std::string aw;
+    for (std::size_t i = 0; i < cx.attemptWaits.size(); ++i)
+    {
+      std::string one;
+      for (auto v : cx.attemptWaits[i]) one += (one.empty() ? "" : ":") + std::to_string(v);
+      aw += (i ? "," : "") + (one.empty() ? std::string("-") : one);
+    }
+    mo << " aw=" << (aw.empty() ? "-" : aw) << " stall=" << cx.stalls;
+  }
+  mo << " maxwait=" << cx.maxWaitMs << " tow=" << cx.waitTimeouts << " vms=" << (v1 - v0) / 1000000LL << " rms=" << (r1 - r0) / 1000000LL << " exhausted=" << (cx.exhausted ? 1 : 0)
      << " body=" << rbody << " quiesce=" << (g_quiesceFailed.load() ? "FAILED" : "ok");
   return o.str() + "\x01" + mo.str();
 }
@@ -1393,15 +1544,17 @@ int main()
     std::fprintf(stderr, "c17 harness: cannot start the loopback server\n");
     return 3;
   }
+  t_harnessThread = true;
   std::thread(warperLoop).detach();
   int rc = vh::runLines([&](const std::vector<std::string>& t) -> std::string {
     try
     {
-      unsigned long long a = 0, b = 0, c = 0;
-      if (t.size() == 4 && t[0] == "reset" && vh::parseNat(t[1], a) && vh::parseNat(t[2], b) && vh::parseNat(t[3], c))
+      unsigned long long a = 0, b = 0, c = 0, d = 0, e = 0;
+      if (t.size() == 6 && t[0] == "reset" && vh::parseNat(t[1], a) && vh::parseNat(t[2], b) && vh::parseNat(t[3], c) &&
+          vh::parseNat(t[4], d) && vh::parseNat(t[5], e))
       {
-        // reset <reuseConnections> <response cap, 0 = default> <leaseAcquireTimeout ms>
-        makeClient(a != 0, static_cast<std::size_t>(b), static_cast<long long>(c));
+        // reset <reuseConnections> <response cap, 0 = default> <leaseAcquireTimeout ms> <requestTimeout ms> <connectTimeout ms>
+        makeClient(a != 0, static_cast<std::size_t>(b), static_cast<long long>(c), static_cast<long long>(d), static_cast<long long>(e));
         g_sidOrd.clear();
         g_nextSidOrd = 1;
         {
@@ -1412,12 +1565,17 @@ int main()
         g_srv.maxInExchange = 0;
         return "ok";
       }
-      if (t.size() >= 6 && t[0] == "req" && g_clientPtr)
+      if (t.size() >= 6 && (t[0] == "req" || t[0] == "call") && g_clientPtr)
       {
+        // req  <method hex> …: performRequest(method, …) directly (any method string)
+        // call <entry point> …: the public function of that name
         long long budget = 0;
         unsigned long long urlKind = 0, bodyLen = 0;
         Bytes m;
-        if (!vh::ofHex(t[1], m) || !parseLL(t[2], budget) || !vh::parseNat(t[3], urlKind) || !vh::parseNat(t[4], bodyLen))
+        std::string entry;
+        if (t[0] == "call") entry = t[1];
+        else if (!vh::ofHex(t[1], m)) return "bad-op";
+        if (!parseLL(t[2], budget) || !vh::parseNat(t[3], urlKind) || !vh::parseNat(t[4], bodyLen))
           return "bad-op";
         std::vector<Fault> script;
         for (std::size_t i = 5; i < t.size(); ++i)
@@ -1427,8 +1585,9 @@ int main()
           script.push_back(f);
         }
         std::size_t mark = 0;
-        std::string r = doRequest(std::string(m.begin(), m.end()), budget, static_cast<int>(urlKind),
+        std::string r = doRequest(entry, std::string(m.begin(), m.end()), budget, static_cast<int>(urlKind),
                                   static_cast<std::size_t>(bodyLen), std::move(script), mark);
+        if (r.rfind("skip:", 0) == 0) return r;
         auto sep = r.find('\x01');
         std::string ev = traceSince(mark); // assigns creation-order numbers to new session ids (before cacheState uses them)
         std::string cs = cacheState();
@@ -1483,6 +1642,14 @@ int main()
         // vclock 0: from now on time-outs are real (the following requests take their configured time-outs in real time)
         g_realtime = t[1] == "0";
         setScale(g_realtime.load() ? 1 : 50);
+        return "ok";
+      }
+      if (t.size() == 2 && t[0] == "srvclose" && (t[1] == "f" || t[1] == "r"))
+      {
+        // the server closes (FIN) or resets every kept-alive connection that is idle, and the client gets time to notice
+        g_srv.closeIdleRst = t[1] == "r";
+        g_srv.closeIdleGen++;
+        realSleepUs(60000);
         return "ok";
       }
       if (t.size() == 2 && t[0] == "pause" && vh::parseNat(t[1], a) && a <= 1000)
